@@ -47,6 +47,18 @@ pub enum V {
     StructVar(&'static str, Vec<(&'static str, V)>),
     UnitStruct,
     TupleStruct(Vec<V>),
+    /// a value that serializes itself with `collect_str`: its Display writes the pieces one after the other
+    Disp(Vec<String>),
+}
+
+struct Pieces<'a>(&'a [String]);
+impl std::fmt::Display for Pieces<'_> {
+    fn fmt(&self, f: &mut std::fmt::Formatter<'_>) -> std::fmt::Result {
+        for p in self.0 {
+            f.write_str(p)?;
+        }
+        Ok(())
+    }
 }
 
 const NAMES: [&str; 10] = ["Uv", "Kv", "Nv", "Tv", "Sv", "f", "g2", "h", "q\"t", "b\\s\tn\nl"];
@@ -140,6 +152,7 @@ impl Serialize for V {
                 }
                 m.end()
             }
+            V::Disp(parts) => s.collect_str(&Pieces(parts)),
             V::UnitStruct => s.serialize_unit_struct("Us"),
             V::TupleStruct(items) => {
                 let mut q = s.serialize_tuple_struct("Ts", items.len())?;
@@ -220,6 +233,7 @@ pub fn from_spec(v: &Value) -> V {
         "tuple" => V::Tuple(items(&v["items"])),
         "map" => V::Map(v["entries"].as_array().unwrap().iter().map(|e| (from_spec(&e[0]), from_spec(&e[1]))).collect()),
         "struct" => V::Struct(fields(&v["fields"])),
+        "disp" => V::Disp(v["parts"].as_array().unwrap().iter().map(toks).collect()),
         "unitstruct" => V::UnitStruct,
         "tuplestruct" => V::TupleStruct(items(&v["items"])),
         "unitvar" => V::UnitVar(stat(v["name"].as_str().unwrap())),
@@ -477,7 +491,9 @@ pub fn random_tree(r: &mut Rng, depth: usize) -> Value {
             1 => json!({"t":"bool","b":r.chance(1,2)}),
             2 => json!({"t":"num","a":format!("{}", (r.next() as i64) >> r.below(60)),"int":true}),
             3 => json!({"t":"num","a":format!("{}", r.next() >> r.below(60)),"int":true}),
-            4 | 5 => json!({"t":"str","s":s(r)}),
+            4 => json!({"t":"str","s":s(r)}),
+            // a Display value: a long piece followed by shorter ones (the buffer may end inside any of them)
+            5 => json!({"t":"disp","parts":[Value::Array((0..r.range(3, 40)).map(|_| json!(*r.pick(&toks))).collect()), s(r), s(r)]}),
             6 => json!({"t":"char","s":[*r.pick(&toks)]}),
             7 => json!({"t":"unitvar","name":"Uv"}),
             8 => if r.chance(1, 2) { json!({"t":"none"}) } else { json!({"t":"unitstruct"}) },
